@@ -21,12 +21,15 @@ META = {
             "invariants of both caches (C17_capacity); SmallLFRUCache alone answers the factory value for every "
             "getOrDefault/clear sequence with the eviction rule exactly as coded (C17_lfru_transparent - the proof "
             "does not depend on which slot is evicted); lru11 hits are sound (C17_lru_hit_sound); VbkBlock::getHash "
-            "answers f(current content) for every sequence of setters/getHash/precalculated hashes and every setter "
-            "empties the memo (C17_memo_transparent, C17_setter_invalidates_memo). Tie to the code: the real "
+            "answers f(current content) for every sequence of setters/getHash/precalculated hashes/deserialisation into "
+            "the same object/copy-move assignment; every setter empties the memo and deserialisation overwrites it with "
+            "the supplied hash or empties it (C17_memo_transparent, C17_setter_invalidates_memo, C17_deser_resets_memo). Tie to the code: the real "
             "SmallLFRUCache/lru11 templates are driven by generated op sequences and compared with the extracted model "
             "(values gate; hit/miss and victim slot are recorded as policy agreement), and the real progPowHash / "
             "VbkBlock::getHash over several epochs with tiny injected caches (forced evictions), clears, precomputed "
-            "entries, several threads and every single-field flip is compared with a cache-free recomputation.",
+            "entries, several threads, every single-field flip, and one VbkBlock object reused as target of setters / "
+            "DeserializeFromRaw / DeserializeFromVbkEncoding (with and without precalculated hash) / copy and move "
+            "assignment is compared with a cache-free recomputation after every step.",
     "note": "Honest limit: vProgPoW itself is an oracle (Section variable), only its caching is proved; data races are "
             "observed by TSan (header-cache hit path and lru11 under contention in quick; real hashing under TSan only in "
             "thorough, ~100 s per epoch), not proved. A changed eviction policy is not a purity violation: policy "
@@ -95,6 +98,20 @@ def gen_pow_cases(ctx, tier, variant):
         # four threads, default-size epoch cache, precomputed entries and clears in between
         cases.append(("p2", "pow", ["4", "6", "100", str(sd + 1)] +
                       ("h0.1 h0.2 h1.1 h0.3 h1.2 P0.7 h0.7 h1.3 C h0.1 h1.1 h0.4 P1.9 h1.9 h0.2 h1.2".split())))
+        # one VbkBlock object reused as setter / deserialisation / assignment target (memo state machine)
+        kinds = ["g", "g", "s", "s", "p", "d", "d", "D", "v", "V", "a", "A", "m"]
+        for bi in range(2 if tier == "quick" else 12):
+            ops = []
+            for _ in range(40 if tier == "quick" else 120):
+                k = r.choice(kinds)
+                if k == "s":
+                    ops.append("s%d" % r.below(9))
+                elif k in ("g", "p"):
+                    ops.append(k)
+                else:
+                    ops.append("%s%d.%d" % (k, r.below(2), r.below(5)))
+            cases.append(("b%d" % (bi + 1), "blk", [str(sd + 20 + bi)] + ops))
+        cases.append(("b0", "blk", [str(sd + 19)] + "g d0.2 g d0.3 D1.1 d0.4 p v1.2 A0.1 d1.3 m1.4 v0.1 V0.2 d0.2 s8 d0.2 a1.1 g".split()))
         cases.append(("p3", "powhit", ["4", str(sd + 2), "60"]))
         cases.append(("p4", "lrumt", ["4", str(sd + 3), "3000"]))
         if tier == "thorough":
